@@ -754,6 +754,24 @@ def reserved_sweep(g, times):
                 i = g.emit('identifier_w', [w]); g.emit('as_type_id', [i]); g.emit('label', [i]); g.emit('suffix', [i])
 
 
+def equal_hash_words(g, n_pairs):
+    """Pairs of DIFFERENT spellings with the same std::hash code (libstdc++), through every constructor that takes a spelling, first
+    A then B, then B' then A' of a second pair, then everything again: equal hash codes must not make two spellings one."""
+    pairs = C.equal_hash_pairs(g.rng, n_pairs)
+    t = g.pick('type')
+    for k, (a, b) in enumerate(pairs):
+        order = [a, b] if k % 2 == 0 else [b, a]
+        for w in order:
+            g.emit('string', [w], False)
+        for w in order:
+            g.emit('identifier_w', [w], False); g.emit('linkage_w', [w], False); g.emit('calling_convention', [w], False)
+            g.emit('operator_w', [w], False)
+            if t is not None: g.emit('literal_w', [t, w], False)
+        for w in reversed(order):
+            g.emit('identifier_w', [w], False); g.emit('linkage_w', [w], False); g.emit('string', [w], False)
+    g.stats['_equal_hash_pairs'] = len(pairs)
+
+
 def pool_rollover(g, n_words):
     """More distinct spellings than one string pool holds (1 MiB = 65536 header slots), then every one of them requested again
     in another order: the word that happens to open a new pool, and its neighbours, must still be the Identifier of their spelling."""
@@ -976,6 +994,8 @@ def build_histories(pid, tier, seed, words, builtins):
         if pid == 'C04' and i % 2 == 0:
             g.prologue()
             reserved_sweep(g, 10 if tier == 'quick' else 20)
+        if pid == 'C04' and i == 0:
+            equal_hash_words(g, 12 if tier == 'quick' else 200)
         if pid == 'C04' and i == 1:
             pool_rollover(g, 42000 if tier == 'quick' else 130000)
         if pid == 'C11' and i == 0:
